@@ -554,6 +554,10 @@ class DataElementConverter(XMLSchemaConverter):
 
     def element_encode(self, data_element: 'DataElement', xsd_element: 'XsdElement',
                        level: int = 0) -> ElementData:
+        if not isinstance(data_element, DataElement):
+            msg = "A DataElement instance expected, got {} instead"
+            raise XMLSchemaTypeError(msg.format(type(data_element)))
+
         xmlns = self.set_xmlns_context(data_element, level)
         if not xsd_element.is_matching(data_element.tag):
             raise XMLSchemaValueError("Unmatched tag")
@@ -571,6 +575,9 @@ class DataElementConverter(XMLSchemaConverter):
             content.append((next(cdata_num), data_element.value))
 
         for e in data_element:
+            if not isinstance(e, DataElement):
+                msg = "A DataElement child expected, got {} instead"
+                raise XMLSchemaTypeError(msg.format(type(e)))
             content.append((e.tag, e))
             if e.tail is not None:
                 content.append((next(cdata_num), e.tail))
